@@ -78,6 +78,29 @@ func genLongTokens(w *core.Worker, u core.Unit, emit func(core.Case)) {
 	for i := u.Lo; i < u.Hi; i++ {
 		wr := wrap[r.Intn(len(wrap))]
 		f := r.Pick(fill)
+		if r.Intn(8) == 0 {
+			// dollar-quoted literal with a long tag and a closer that is the tag,
+			// a prefix of it, an extension or another letter case; little or
+			// nothing after the closer (tag limits: 63-letter identifiers)
+			L := []int{1, 2, 31, 32, 33, 62, 63, 64, 65, 100, 255, 256}[r.Intn(12)]
+			tag := strings.Repeat("tagname", L/7+1)[:L]
+			closer := tag
+			switch r.Intn(6) {
+			case 1:
+				if L > 63 {
+					closer = tag[:63]
+				}
+			case 2:
+				closer = tag[:L-1]
+			case 3:
+				closer = tag + "a"
+			case 4:
+				closer = strings.ToUpper(tag)
+			}
+			after := []string{"", "x", "xy", " or 1", strings.Repeat("z", L/2)}[r.Intn(5)]
+			emit(core.Case{In: r.Pick(ctx) + "$" + tag + "$" + []string{"", "a", "a$b"}[r.Intn(3)] + "$" + closer + "$" + after})
+			continue
+		}
 		n := lens[r.Intn(len(lens))]
 		body := strings.Repeat(f, n)
 		if r.Intn(4) == 0 && n > 2 {
@@ -311,7 +334,7 @@ var c08Thorough = []Mix{
 func c08() *core.Check {
 	return &core.Check{
 		ID: "C08",
-		Rule: "IsSQLi is called on every SQL workload input (incl. attack-grammar members and their near misses, whitelist-boundary shapes); the returned pair is checked against the consistency predicates, the live blacklist and the per-context fingerprints computed on fresh state. " +
+		Rule: "IsSQLi is called on every SQL workload input (incl. attack-grammar members and their near misses, whitelist-boundary shapes); the returned pair is checked against the consistency predicates, the live blacklist and the per-context fingerprints computed on fresh state; every returned fingerprint string is kept as returned and compared with a copy eight positive calls later. " +
 			"Non-trivial = distinct (verdict, fingerprint, firing context) triples plus distinct true-verdict inputs.",
 		Plan: sqlPlan(c08Quick, c08Thorough),
 		Gen:  sqlGen,
@@ -338,6 +361,25 @@ func c08() *core.Check {
 				return
 			}
 			w.Count("verdict_true", 1)
+			// the pair must stay what it was: the string handed out for an earlier
+			// input is looked at again eight positives later
+			{
+				type held struct{ raw, cp, in string }
+				ring, _ := w.Local["c08held"].(*[8]held)
+				if ring == nil {
+					ring = new([8]held)
+					w.Local["c08held"] = ring
+				}
+				n, _ := w.Local["c08n"].(int)
+				if h := ring[n%8]; h.raw != "" {
+					w.Count("returned_fingerprints_looked_at_again", 1)
+					if h.raw != h.cp {
+						w.ViolateConfirmed("fingerprint-changed-after-return", fmt.Sprintf("IsSQLi(%q) returned fingerprint %q; after eight later positive calls the same string value reads %q", trunc(h.in, 120), h.cp, h.raw))
+					}
+				}
+				ring[n%8] = held{raw: f, cp: string(append([]byte(nil), f...)), in: s}
+				w.Local["c08n"] = n + 1
+			}
 			msg := ""
 			switch {
 			case len(f) < 1 || len(f) > 5:
@@ -404,7 +446,7 @@ func c08() *core.Check {
 func c12() *core.Check {
 	return &core.Check{
 		ID: "C12",
-		Rule: "for every SQL workload input: (a) IsSQLi is compared with the documented cascade evaluated over fresh-state per-context observations (the MySQL gate is decided from the tokens the ANSI pass lexed: a '#' operator or a '--x' comment); (a') a flood of 24 M (thorough 400 M) pairwise distinct inputs of equal length (24-1024 bytes; attack and benign templates with random filler, 16 goroutines), each answer compared with its template's cascade answer and, on disagreement, with the cascade of that input: an answer remembered under a lossy key (up to about 32 bits) is handed to another input here; (b) for q in {',\"} and both dialects the fingerprint, verdict (unless sos/s&s) and token stream of reading s inside q are compared with reading q+s as-is. " +
+		Rule: "for every SQL workload input: (a) IsSQLi is compared with the documented cascade evaluated over fresh-state per-context observations (the MySQL gate is decided from the tokens the ANSI pass lexed: a '#' operator or a '--x' comment); (a') a flood of 24 M (thorough 400 M) pairwise distinct inputs of equal length (24-1024 bytes; attack and benign templates with random filler, 16 goroutines), each answer compared with its template's cascade answer and, on disagreement, with the cascade of that input: an answer remembered under a lossy key (up to about 32 bits) is handed to another input here; (c) all five readings run in cascade order on one re-used state (build-tagged accessor that walks the state the way check() does) are compared, reading by reading, with the same readings on fresh states; (b) for q in {',\"} and both dialects the fingerprint, verdict (unless sos/s&s) and token stream of reading s inside q are compared with reading q+s as-is. " +
 			"Non-trivial = distinct inputs whose firing context is not the first, or whose quote-context token stream has >= 2 tokens.",
 		Plan: func(tier string, seed uint64) []core.Unit {
 			us := sqlPlan(c08Quick, c08Thorough)(tier, seed)
@@ -463,6 +505,27 @@ func c12() *core.Check {
 			}
 			if s == "" {
 				return
+			}
+			// (c) each reading is independent of the readings tried before it:
+			// all five readings in cascade order on ONE state (the way check()
+			// re-uses its state) against the same readings on fresh states
+			if len(s) <= 1<<14 {
+				order := []int{sqlModes[0], sqlModes[1], sqlModes[2], sqlModes[3], sqlModes[5]}
+				seq := li.VerifSQLPassSeq(s, order)
+				for i := range seq {
+					fr := r.passes[i]
+					if fr == nil {
+						p := li.VerifSQLPassOn(s, order[i])
+						fr = &p
+					}
+					q := &seq[i]
+					if q.Fingerprint != fr.Fingerprint || q.Verdict != fr.Verdict || q.StatsTokens != fr.StatsTokens || q.StatsFolds != fr.StatsFolds || q.StatsCommentDDX != fr.StatsCommentDDX || q.StatsCommentHash != fr.StatsCommentHash {
+						w.Violate("reading-depends-on-earlier-readings", fmt.Sprintf("reading %s after the readings before it on the same state: fingerprint %q verdict=%v tokens=%d folds=%d ddx=%d hash=%d; on a fresh state: fingerprint %q verdict=%v tokens=%d folds=%d ddx=%d hash=%d",
+							cascadeNames[i], q.Fingerprint, q.Verdict, q.StatsTokens, q.StatsFolds, q.StatsCommentDDX, q.StatsCommentHash, fr.Fingerprint, fr.Verdict, fr.StatsTokens, fr.StatsFolds, fr.StatsCommentDDX, fr.StatsCommentHash))
+						break
+					}
+				}
+				w.Count("five_reading_sequences_compared", 1)
 			}
 			// (b) quote equivalence
 			for _, q := range []struct {
